@@ -310,10 +310,16 @@ def _train_stage(rep: Report, plan: dict[str, Any], topo: Any,
                     spec = table[int(n)]
                     vw, vb = _shard_of(plan, spec, info['V'][n], m)
                     got = by_rank[r]['G'][n]
-                    if R.rel_err(got['w'], nu_l * vw) > bound:
-                        local_ok = False
-                    if vb is not None and R.rel_err(
-                            got['b'], nu_l * vb) > bound:
+                    # error of the whole shard (weight and bias together)
+                    # relative to the layer: a single tiny bias element has
+                    # no meaningful relative error of its own
+                    gv = got['w'].to(R.F64).reshape(-1)
+                    wv = (nu_l * vw).reshape(-1)
+                    if vb is not None:
+                        gv = torch.cat([gv, got['b'].to(R.F64).reshape(-1)])
+                        wv = torch.cat([wv, (nu_l * vb).reshape(-1)])
+                    den = nu_l * float(info['V'][n].norm())
+                    if float((gv - wv).norm()) > bound * max(den, 1e-300):
                         local_ok = False
         props = ['C11', 'C07'] + (['C18'] if after_restart else [])
         if local_ok and mp > 1:
